@@ -287,13 +287,17 @@ func runC09(cx *Ctx, r *Report) {
 				case a.LooseString() == coin:
 					sawPlain = true
 				case a.Op == "call" && a.Name == "sdk.Coin.Add" && len(a.Args) == 2:
-					x := a.Args[0]
-					xs := x.LooseString()
-					if xs == coin || xs == "φ{"+coin+"|⟲}" || xs == "⟲" {
-						if strings.Contains(a.Args[1].LooseString(), "GetBurnCoin(keeper, "+coin+".Denom)") {
-							sawAdd = true
-							continue
+					// coin + previous tally, in either operand order (Coin.Add commutes)
+					matched := false
+					for i := 0; i < 2; i++ {
+						xs := a.Args[i].LooseString()
+						if (xs == coin || xs == "φ{"+coin+"|⟲}" || xs == "⟲") && strings.Contains(a.Args[1-i].LooseString(), "GetBurnCoin(keeper, "+coin+".Denom)") {
+							matched = true
 						}
+					}
+					if matched {
+						sawAdd = true
+						continue
 					}
 					other = true
 				case a.LooseString() == "⟲":
